@@ -231,6 +231,18 @@ class C16(Prop):
                 fails.append({"what": "function body not carried verbatim after the same description went through the class emitter", "want": [ast.unparse(s) for s in tree.body[1:]], "got": [ast.unparse(s) for s in again.body[1:]]})
         except Exception:
             pass
+        # a method read through its class (`parse.class_(..., merge_inner_function=<method>)`): the description carries the
+        # METHOD's body, and the function emitter gives it back as the plain round trip does
+        if c["method"]:
+            try:
+                holder = "class Holder(object):\n    \"\"\"\n    Holder of it.\n\n    :cvar alpha0: an attribute\n    \"\"\"\n\n    alpha0: int = 1\n\n" + indent(c["src"], 4) + "\n"
+                ir_m = self.parse.class_(ast.parse(holder).body[0], merge_inner_function="call_peril")
+                out_m = self.emit.function(ir_m, function_name="call_peril", function_type="self", emit_default_doc=False)
+                got_m = [ast.dump(normalise(s)) for s in out_m.body[1:]]
+                if want != ["Pass()"] and got_m != got:
+                    fails.append({"what": "method body not carried when the method is read through its class (merge_inner_function)", "want": [ast.unparse(s) for s in out.body[1:]], "got": [ast.unparse(s) for s in out_m.body[1:]]})
+            except Exception as e:
+                fails.append({"what": "reading a method through its class raised", "exc": exc_kind(e)})
         # __call__
         try:
             cls = self.emit.class_(copy.deepcopy(ir), emit_call=True)
